@@ -90,8 +90,7 @@ Qed.
 (* encode_ok: the graph of an SSA body satisfies every hypothesis history_correct puts on a kernel *)
 Theorem encode_ok b g :
   encode b = Some g ->
-  is_concrete g = true /\ nodup_ids (map nid (pnodes g)) = true /\ pe_wf g = true /\
-  (plain_body b = true -> plain_pe g = true).
+  is_concrete g = true /\ nodup_ids (map nid (pnodes g)) = true /\ pe_wf g = true.
 Proof.
   unfold encode. intros H.
   destruct (encode_nodes b (body_ids b) 0 (bops b)) as [ns|] eqn:En; [|discriminate].
@@ -115,7 +114,4 @@ Proof.
     + exact Hnd.
     + intros i. unfold users. cbn [pnodes pout flat_map]. rewrite Hnm, H1.
       destruct o; cbn [src_is_leaf] in Hol; try discriminate; cbn [src_muxes app]; rewrite cnt_seq, !cnt_nil; lia.
-  - intros Hp. apply plain_pe_spec. cbn [pnodes]. intros n k Hn Hk.
-    destruct (H3 n Hn) as [(o' & Ho' & Hko) _]. rewrite Hko in Hk. destruct Hk as [<-|[]].
-    unfold plain_body in Hp. rewrite forallb_forall in Hp. apply Z.eqb_eq. apply Hp. exact Ho'.
 Qed.
